@@ -6,6 +6,8 @@ import (
 	"time"
 
 	"github.com/miekg/dns"
+
+	wm "verif/harness/wiremodel"
 )
 
 // Sample is one fixed RDATA of the "every presentable type once" table: the tokens as they are
@@ -176,6 +178,8 @@ var Samples = []Sample{
 		return &dns.AMTRELAY{Precedence: 10, GatewayType: 1, GatewayAddr: ip4(203, 0, 113, 15)}
 	}},
 	{"RESINFO", 261, []string{`"qnamemin"`, `"exterr=15-17"`}, func() dns.RR { return &dns.RESINFO{Txt: []string{"qnamemin", "exterr=15-17"}} }},
+	// a type registered with dns.PrivateHandle (wiremodel registers VPRIV = 65280, RDATA = hex words)
+	{"VPRIV", 65280, []string{"0a0b", "0c"}, func() dns.RR { return &dns.PrivateRR{Data: &wm.PrivData{B: []byte{0x0a, 0x0b, 0x0c}}} }},
 	{"TA", 32768, []string{"60485", "5", "1", "2bb183af5f22588179a53b0a98631fad1a292118"}, func() dns.RR {
 		return &dns.TA{KeyTag: 60485, Algorithm: 5, DigestType: 1, Digest: "2bb183af5f22588179a53b0a98631fad1a292118"}
 	}},
